@@ -1,14 +1,14 @@
 #!/bin/sh
-# D113 (C17): the options with an optional numeric value (--gap[=N], --multi[=MAX], --sort[=N]) accepted a negative
+# D113, D114 (C17): the options with an optional numeric value (--gap[=N], --multi[=MAX], --sort[=N]) accepted a negative
 # number without a message (their siblings with a mandatory value reject one): --sort=-1 silently switched sorting
 # off, --multi=-3 multi-selection. usage: D113_negative_optional_count.sh <fzf binary>
 ok=1
-for o in "--gap=-5" "--multi=-3" "--sort=-1"; do
+for o in "--gap=-5" "--multi=-3" "--sort=-1" "-m-3"; do
   printf 'a\nb\n' | "$1" $o -f a >/dev/null 2>/tmp/d113.err; rc=$?
   echo "$o -> exit $rc $(head -c 80 /tmp/d113.err)"
   [ $rc = 2 ] || ok=0
 done
-for o in "--gap=2" "--multi=3" "--sort=1" "-m" "--gap"; do
+for o in "--gap=2" "--multi=3" "--sort=1" "-m" "-m3" "--gap"; do
   printf 'a\nb\n' | "$1" $o -f a >/dev/null 2>/tmp/d113.err; rc=$?
   [ $rc = 0 ] || { echo "$o -> exit $rc"; ok=0; }
 done
